@@ -1,11 +1,67 @@
-(* C05 — the client's output is always a legal MPD session.  Statements only. *)
-From MPD Require Import Bytes Tables LoopModel LoopProofs.
+(* C05 — the client's output is always a legal MPD session (idle/noidle discipline).
+   Statements only; proofs in LoopProofs.v / LoopSpecProofs.v.  The system is LoopSpec.v: the client
+   logic is LoopModel.cstep (the model compared with the real run loop by the replayer), the
+   environment a rule-abiding server and an adversarial scheduler (callers, server timing,
+   notifications, select! choice, timer expiry).  [reply_fn] is the server's reply to a request:
+   universally quantified. *)
+From MPD Require Import Bytes Tables BuilderModel LoopModel LoopProofs LoopSpec LoopSpecProofs.
 Open Scope N_scope.
 
-Theorem c05_writes_are_idle_noidle_or_the_request : forall wf p i p' outs bs,
+(* for EVERY schedule the server never receives anything but noidle while it waits in idle *)
+Theorem c05_legal_session : forall reply_fn sch,
+  Forall wf_label sch -> a_violated (arun reply_fn sch) = false.
+Proof. exact never_violated. Qed.
+
+Theorem c05_idle_only_noidle : forall reply_fn sch,
+  Forall wf_label sch -> a_idle (arun reply_fn sch) = true ->
+  a_c2s (arun reply_fn sch) = [] \/ a_c2s (arun reply_fn sch) = [noidle_line].
+Proof. exact idle_only_noidle. Qed.
+
+(* at most one request is outstanding (its bytes on the way to the server or its reply on the way back) *)
+Theorem c05_one_outstanding : forall reply_fn sch,
+  Forall wf_label sch ->
+  (length (filter is_req (a_c2s (arun reply_fn sch))) + length (filter is_reply (a_s2c (arun reply_fn sch))) <= 1)%nat.
+Proof. exact one_outstanding. Qed.
+
+(* the whole invariant (the ten shapes of DESIGN.md): a request is written only after the idle
+   reply was consumed (from PCancel) or from the window where no idle is pending *)
+Theorem c05_invariant : forall reply_fn sch, Forall wf_label sch -> Inv reply_fn (arun reply_fn sch).
+Proof. exact inv_run. Qed.
+
+(* everything the loop writes is idle, noidle, or the request it was handed *)
+Theorem c05_writes : forall wf p i p' outs bs,
   cstep wf p i = (p', outs) -> In (OWrite bs) outs ->
-  bs = idle_line \/ bs = noidle_line \/
-  (exists q, (p = PCancel q \/ i = InCmd (Some q)) /\ bs = q_bytes q).
+  bs = idle_line \/ bs = noidle_line \/ (exists q, (p = PCancel q \/ i = InCmd (Some q)) /\ bs = q_bytes q).
 Proof. exact cstep_writes. Qed.
 
-Print Assumptions c05_writes_are_idle_noidle_or_the_request.
+(* idle on entry; idle again after every idle reply and when the window expires *)
+Theorem c05_idle_on_entry : loop_entry false = (PIdle, [OWrite idle_line]).
+Proof. reflexivity. Qed.
+
+Theorem c05_reidle_after_timeout : cstep false PWindow InTimeout = (PIdle, [OWrite idle_line]).
+Proof. reflexivity. Qed.
+
+Theorem c05_reidle_after_event : forall reply_fn ns,
+  cstep false PIdle (InRecv (RResp (resp_of reply_fn (SIdle ns)))) = (PIdle, map OEvent ns ++ [OWrite idle_line]).
+Proof.
+  intros. change (cstep false PIdle (InRecv (RResp (resp_of reply_fn (SIdle ns)))))
+    with (PIdle, events_of (idle_frame ns) ++ [OWrite idle_line]).
+  unfold events_of. rewrite changed_idle_frame. reflexivity.
+Qed.
+
+(* non-vacuity: the noidle race (the server answers idle while the client cancels it) is a
+   reachable schedule; the request still gets the reply to its own bytes *)
+Example c05_race :
+  let q := mkReq 7 (b "status" ++ [LF]) in
+  let rf := fun bs => mkResp [mkFrame [(b "echo", bs)] None] None in
+  let s := arun rf [LServe; LNotify (b "player"); LIssue q; LTake; LRecv; LServe; LServe; LRecv] in
+  wf_label (LIssue q) /\ a_violated s = false /\ a_delivered s = [b "player"] /\
+  a_replies s = [(7, rf (q_bytes q))] /\ a_pt s = PWindow.
+Proof. cbn zeta. split; [split; discriminate|]. vm_compute. auto. Qed.
+
+Print Assumptions c05_legal_session.
+Print Assumptions c05_idle_only_noidle.
+Print Assumptions c05_one_outstanding.
+Print Assumptions c05_invariant.
+Print Assumptions c05_writes.
+Print Assumptions c05_reidle_after_event.
